@@ -320,9 +320,14 @@ fn parent(prop: &str, tier: Tier) -> i32 {
         }
     }
     let merged = merge(results);
-    for f in &merged.failures {
-        violations.push((f.signature.clone(), f.replay.clone()));
-        eprintln!("violation [{}] {}: {}", f.sub, f.signature, f.detail);
+    {
+        let mut shown = std::collections::BTreeSet::new();
+        for f in &merged.failures {
+            violations.push((f.signature.clone(), f.replay.clone()));
+            if shown.insert((f.sub.clone(), f.signature.clone())) {
+                eprintln!("violation [{}] {}: {}", f.sub, f.signature, f.detail);
+            }
+        }
     }
     known_lines.extend(merged.known_hits.clone());
     for (sig, what) in &known_lines {
